@@ -1,11 +1,10 @@
 CONSTANTS
-  Solvers = {"cg", "bicgstab", "bicgstabl", "gmres", "fgmres", "lgmres", "idrs", "richardson"}
+  Solvers = {"bicgstab"}
   MaxIter = 6
   MaxPar = 3
   Consistent = FALSE
   WithBreakdown = TRUE
-  CheckAfterGuarded = TRUE
+  CheckAfterGuarded = FALSE
 SPECIFICATION FairSpec
 INVARIANTS TypeOK Budget ExitReason Provenance Work Flushed
-PROPERTY Termination
 CHECK_DEADLOCK FALSE
